@@ -15,7 +15,7 @@ namespace etl {
 template <typename ForwardIt, typename Predicate>
 [[nodiscard]] constexpr auto remove_if(ForwardIt first, ForwardIt last, Predicate pred) -> ForwardIt
 {
-    first = find_if(first, last, pred);
+    first = etl::find_if(first, last, pred);
 
     if (first != last) {
         for (auto i = first; ++i != last;) {
